@@ -31,3 +31,33 @@ func TestDerivedTerminalDoesNotBreakBase(t *testing.T) {
 		t.Fatalf("Close after use: %v", err)
 	}
 }
+
+// C10: builder methods derive a new extractor; for a document given from memory (FromHTMLString, FromHTMLReader)
+// there is no file to open again, so the derived extractor has to keep the parsed document. The repair daff3ef had
+// stopped handing on every reader the parent "owns", which included these: any configured extraction of an in-memory
+// HTML document failed with "no filename specified".
+func TestDerivedFromInMemoryHTMLKeepsDocument(t *testing.T) {
+	src := "<html><body><h1>Title</h1><p>Body text</p></body></html>"
+	for name, d := range map[string]*tabula.Extractor{
+		"ExcludeHeaders": tabula.FromHTMLString(src).ExcludeHeaders(),
+		"ExcludeFooters": tabula.FromHTMLString(src).ExcludeFooters(),
+		"FromHTMLReader": tabula.FromHTMLReader(strings.NewReader(src)).ExcludeHeaders(),
+	} {
+		got, _, err := d.Text()
+		if err != nil {
+			t.Fatalf("%s: %v", name, err)
+		}
+		if !strings.Contains(got, "Body text") {
+			t.Fatalf("%s: %q lacks the body", name, got)
+		}
+	}
+	// and using a derived extractor does not disturb the base
+	base := tabula.FromHTMLString(src)
+	if _, _, err := base.ExcludeHeaders().Text(); err != nil {
+		t.Fatal(err)
+	}
+	got, _, err := base.Text()
+	if err != nil || !strings.Contains(got, "Body text") {
+		t.Fatalf("base after a terminal operation on a derived extractor: %q, %v", got, err)
+	}
+}
